@@ -65,7 +65,15 @@ class C07(HistoryProperty):
         name = f"F{g.n_ds}"
         focus = {"k": "dataset", "name": name, "args": {"abc"[i]: g.pick_any() for i in range(rng.randint(0, 2))}}
         x = rng.random()
-        if x < 0.4:
+        tuple_dispatch = False
+        if x < 0.15:
+            # a dispatch that yields a TUPLE (e.g. (engine, major version)); aliases are tuples then
+            a1 = g.add({"k": "opt", "key": "M", "default": {"t": "const", "v": "a"}}, hashable=True)
+            a2 = g.add({"k": "opt", "key": "M2", "default": {"t": "const", "v": 1}}, hashable=True)
+            tn = g.add({"k": "tuple", "items": [a1, a2]}, hashable=True)
+            focus["dispatch"] = {"n": tn}
+            tuple_dispatch = True
+        elif x < 0.5:
             focus["dispatch"] = rng.choice(U.DISPATCH_KEYS)
         else:
             focus["dispatch"] = {"n": g.pick_hashable()}
@@ -95,10 +103,17 @@ class C07(HistoryProperty):
                 o2 = copy.deepcopy(o)
                 if isinstance(focus["dispatch"], str) and rng.random() < 0.7:
                     o2[focus["dispatch"]] = rng.choice(ALIASES)
+                if tuple_dispatch:
+                    if rng.random() < 0.6:
+                        o2["M"] = rng.choice(["a", "b"])
+                    if rng.random() < 0.6:
+                        o2["M2"] = rng.choice([1, 2])
                 ops.append({"op": "evaluate", "node": fid, "o": o2})
             elif x < 0.75:
                 alias = rng.choice(ALIASES)
-                if rng.random() < 0.2:
+                if tuple_dispatch and rng.random() < 0.8:
+                    alias = {"tuple": [rng.choice(["a", "b"]), rng.choice([1, 2])]}
+                elif rng.random() < 0.2:
                     alias = [alias, rng.choice(["x", "y"])]
                 impl = {"n": rng.choice(candidates)} if candidates else None
                 if impl and gen.node_by_id(spec, impl["n"])["k"] in ("dataset", "derive") and rng.random() < 0.5:
@@ -140,7 +155,7 @@ class C07(HistoryProperty):
                 if w.count("body") and False:
                     pass
                 if op["op"] == "register":
-                    for a in (op["alias"] if isinstance(op["alias"], list) else [op["alias"]]):
+                    for a in (op["alias"] if isinstance(op["alias"], list) else [op["alias"]]):  # ({"tuple": ...} is ONE alias)
                         table[_key(a)] = op["impl"]
                         if evaluated:
                             registered_after_eval.add(crepr(_key(a)))
